@@ -140,9 +140,35 @@ def attrC01 : AttrFn := fun c o spec =>
     else let _ := out; none
   | _ => none
 
+/-- C03 over the shared generator (meta mode): the open finding C03-F1 (GroupKeyReduction infers "unique" from a distinct-count
+    ESTIMATE, so a non-unique column whose max−min+1 ≥ row count is taken for a key and the other GROUP BY keys are dropped)
+    is attributed by signature + neutraliser: the plan has a key-forming aggregation, every configuration that is not a plain
+    optimized layout (`L+noopt`, `L+without:GroupKeyReduction`, …) answers and they all agree, at least one plain layout `L`
+    disagrees with them, and for each such `L` the run `L+without:GroupKeyReduction` exists — i.e. removing exactly that rule
+    repairs the answer on the real engine.  Anything else (no such run, the neutralised run still wrong, an error, a panic)
+    stays a VIOLATION. -/
+def attrC03 : AttrFn := fun c _ _ =>
+  match c.impl.getObjVal? "runs" with
+  | .ok (.obj kv) =>
+    let runs := kv.toList.filterMap fun (k, v) => match outcomeOfJson v with | .ok o => some (k, o) | .error _ => none
+    let isPlain (k : String) : Bool := (k.splitOn "+").length == 1
+    let oks := runs.filterMap fun (k, o) => match o with | .ok t => some (k, t) | _ => none
+    if oks.length != runs.length || !anyNode isGroupedNode c.plan then none else
+    let refs := oks.filter (fun (k, _) => !isPlain k)
+    match refs with
+    | [] => none
+    | (_, t0) :: _ =>
+      let same (t : Table) : Bool := match Spec.sameAnswer fo fns c.plan t0 t with | .ok b => b | .error _ => false
+      let refsAgree := refs.all (fun (_, t) => same t)
+      let bad := (oks.filter (fun (k, t) => isPlain k && !same t)).map (·.1)
+      let neutralised := bad.all (fun k => refs.any (fun (k', _) => k' == k ++ "+without:GroupKeyReduction"))
+      if refsAgree && !bad.isEmpty && neutralised then some "C03-F1" else none
+  | _ => none
+
 def attrByProp : AttrFn := fun c o spec =>
   match c.prop with
   | "C01" => attrC01 c o spec
+  | "C03" => attrC03 c o spec
   | "C24" => attrC24 c o spec
   | _ => none
 
